@@ -499,14 +499,30 @@ class Parser:
         node.ctx = context
         return node
 
+    # keywords that may follow an operand: CPython lets them touch a numeric literal ('1if x else y')
+    _AFTER_NUMBER = ("and", "else", "for", "if", "in", "is", "not", "or")
+
+    def number_value(self, number: TokenInfo) -> Any:
+        """The value of a numeric literal in Python code.  As in CPython a word written right against the literal is an
+        error ('case 0as z', 'with 1as x', '1abc'); in a subprocess such a run of tokens is one word and never gets here."""
+        nxt = self._tokenizer.peek()
+        if nxt.type == Token.NAME and nxt.start == number.end:
+            # '0or x': CPython reads the prefix of an octal literal there, keyword or not
+            s = (number.string + nxt.string[:1] if number.string == "0" else number.string).lower()
+            kinds = (("0x", "hexadecimal"), ("0o", "octal"), ("0b", "binary"))
+            kind = next((k for p, k in kinds if s.startswith(p)), "imaginary" if s.endswith("j") else "decimal")
+            if nxt.string not in self._AFTER_NUMBER or (number.string == "0" and kind != "decimal"):
+                self.raise_syntax_error_known_range(f"invalid {kind} literal", number, nxt)
+        return ast.literal_eval(number.string)
+
     def ensure_real(self, number: TokenInfo) -> float | int:
-        value = ast.literal_eval(number.string)
+        value = self.number_value(number)
         if not isinstance(value, float | int):
             self.raise_syntax_error_known_location("real number required in complex literal", number)
         return value
 
     def ensure_imaginary(self, number: TokenInfo) -> complex:
-        value = ast.literal_eval(number.string)
+        value = self.number_value(number)
         if not isinstance(value, complex):
             self.raise_syntax_error_known_location("imaginary number required in complex literal", number)
         return value
